@@ -10,8 +10,11 @@ OUT=/var/tmp/verif-selftest-out-$$
 trap 'git -C /repo worktree remove --force "$WT" >/dev/null 2>&1; rm -rf "$WT" "$OUT"' EXIT
 git -C /repo worktree add --detach "$WT" HEAD >/dev/null 2>&1 || { echo "cannot create worktree"; exit 2; }
 mkdir -p "$OUT"
-ln -s "$VERIF/baseline" "$OUT/baseline"
-ln -s "$VERIF/known_findings.json" "$OUT/known_findings.json"
+# snapshots: a long corpus run is not disturbed by a rebuild or a re-recorded baseline meanwhile
+cp -r "$VERIF/baseline" "$OUT/baseline"
+cp "$VERIF/known_findings.json" "$OUT/known_findings.json"
+cp "${GOVC_BIN:-$VERIF/bin/govc}" "$OUT/govc"
+GOVC_BIN="$OUT/govc"
 props="$*"
 [ -z "$props" ] && props=$(ls "$VERIF/selftest/mutants")
 fail=0; n=0
